@@ -233,6 +233,14 @@ fn case(e: &E, pad: usize, ctx: &Ctx, width: usize, syntax: LuaVersion, sink: &m
         _ => return,
     };
     st[2] += 1;
+    // known finding D27: `-` applied to a type assertion over a `-…` operand is printed `--…`, a comment that
+    // swallows the rest of the line; depending on what follows the output fails to parse or parses as
+    // something else. One finding, one signature - whatever the swallowed text happens to be.
+    if minus_assert_minus(&ein) && out.contains("--") {
+        sink.v("C05", "output-unparseable:minus-assert-minus", json!({"input": src, "config": cfg_to_string(&c), "output": out, "tree": ein.sexp()}));
+        sink.v("C01", "expr:output-unparseable:minus-assert-minus", json!({"input": src, "config": cfg_to_string(&c), "output": out}));
+        return;
+    }
     let ast_out = match parse(&out, syntax) {
         Some(a) => a,
         None => {
